@@ -16,7 +16,7 @@ func init() {
 	p := &PropSpec{ID: "C14", Level: "model_checking",
 		Outside: []string{
 			"Concurrency > 0: the manager/worker goroutines, channels and select of conc_reader.go are not encoded (gossa has no scheduler model), so schedules, deadlock, goroutine leaks and data races are NOT covered by this check",
-			"files other than the three layouts built from one 17-byte payload; scripts longer than CALLS calls; buffers longer than MAXREAD",
+			"files other than three layouts written by the real Writer from one 17-byte payload and one hand-built spec-valid file with a three-level index; scripts longer than CALLS calls; buffers longer than MAXREAD",
 			"lib/readerat (the ReadSeeker used here is not an io.ReaderAt)",
 		},
 		Assume: []string{
@@ -24,7 +24,7 @@ func init() {
 			"after a call that must fail (negative position, inverted range) the script stops: rac.Reader keeps that error, an in-memory reader has no such state",
 		},
 	}
-	for layout := 0; layout < 3; layout++ {
+	for layout := 0; layout < 4; layout++ {
 		p.Harnesses = append(p.Harnesses, HSpec{Prop: "C14", Pkg: "lib/rac", Dir: "c14", Func: "VH_C14_Seq", Cfg: cfg,
 			Label: fmt.Sprintf("[layout=%d]", layout), Params: map[string]int{"LAYOUT": layout, "CALLS": 2, "MAXREAD": 6, "RES": 0}, ParamsT: map[string]int{"CALLS": 3, "MAXREAD": 9},
 			Reach: []string{"seq/done", "seq/call"}})
